@@ -107,11 +107,13 @@ def afterHk (s : Sys F) (now : Nat) : Sys F × Out :=
 
 /-- **The housekeeping arm**, up to and including the stamping loop. -/
 def hkArm (v : Views F G) (s : Full F G) (now : Nat) : Full F G × Out :=
-  let (s2, o) := afterHk s.sys now
-  let (cls', res) := Classifier.classify s.cls (clsTick v s2.links)
-  let ctl' := LinkCc.tickAll s.ctl (ccConns v s2.links) now
-  ({ sys := { s2 with links := s2.links.map fun l => FLink.stamped l (stampOf res ctl' l.core.connId) },
-     cls := cls', ctl := ctl' }, o)
+  -- (projections instead of pattern-matching `let`s: the components of the result reduce without evaluating
+  -- `handle_housekeeping`, which keeps the proofs about them cheap)
+  let r := afterHk s.sys now
+  let c := Classifier.classify s.cls (clsTick v r.1.links)
+  let ctl' := LinkCc.tickAll s.ctl (ccConns v r.1.links) now
+  ({ sys := { r.1 with links := r.1.links.map fun l => FLink.stamped l (stampOf c.2 ctl' l.core.connId) },
+     cls := c.1, ctl := ctl' }, r.2)
 
 /-- Events of the whole sender: the housekeeping tick (the arm above) and every event of the shell.  The shell
 events `hk`, `syncTimeout`, `stamp` are the PARTS of the arm; a run of the real loop contains them only inside a
